@@ -122,6 +122,22 @@ def cases(rng, tier):
                 same = H.certified_hnf(a, m)[0] == H.certified_hnf(b, m)[0]; ptag = 'control-undecided'
         out.append(Case('hnf_new_pair', line('hnf_new_pair', a, b), oracle=H.o_pair(a, b, same), always_oracle=(not same),
                         nontrivial=nontriv(a), tag='pair-' + ptag))
+    # ---- lattices of DIFFERENT rank (negative controls for PartialEq): a sub-family of the generators, the zero module, and a
+    # lattice against itself plus one independent vector; decided by the certified reference
+    for tag, a in H.structured_mats(rng, 120 if not th else 1200, 5, [2, 4, 16]):
+        n, m = len(a), len(a[0])
+        kind = rng.randrange(3)
+        if kind == 0: b = [[0] * m for _ in range(rng.randrange(1, 3))]; ptag = 'zero-module'
+        elif kind == 1: b = [list(r) for r in a[:max(1, n - 1)]] if n > 1 else [[0] * m]; ptag = 'fewer-generators'
+        else: b = [list(r) for r in a] + [[H.rand_entry(rng, 3) for _ in range(m)]]; ptag = 'one-more-generator'
+        same = H.certified_hnf(a, m)[0] == H.certified_hnf(b, m)[0]
+        out.append(Case('hnf_new_pair', line('hnf_new_pair', a, b), oracle=H.o_pair(a, b, same), always_oracle=(not same),
+                        nontrivial=nontriv(a), tag='pair-rank-' + ptag))
+        out.append(Case('hnf_new_pair', line('hnf_new_pair', b, a), oracle=H.o_pair(b, a, same), always_oracle=(not same),
+                        nontrivial=nontriv(a), tag='pair-rank-' + ptag))
+    for a, b in [([[2, 0]], [[3, 1], [1, 1]]), ([[0, 0], [0, 0]], [[1, 0], [0, 1]]), ([[1, 0, 0]], [[1, 0, 0], [0, 1, 0]]), ([[0, 0, 3]], [[0, 2, 0], [0, 0, 3]])]:
+        for x, y in ((a, b), (b, a)):
+            out.append(Case('hnf_new_pair', line('hnf_new_pair', x, y), oracle=H.o_pair(x, y, False), always_oracle=True, tag='pair-rank-fixed'))
     # ---- union, determinant, dim, deg
     for tag, a in H.structured_mats(rng, 300 if not th else 3000, 5, [2, 4, 16, 64]):
         m = len(a[0])
